@@ -17,7 +17,16 @@ RULE = ('deterministic slices first: TWO (or three) LIVE VALUE OBJECTS FOR ONE S
         'value, an increment through an object with a current cache continues from what p\'s file held), 20% of the random '
         'histories are of that kind; then changes to and from the falsy identities 0 and empty string; real os.fork() after which the '
         'PARENT adds keys to the shared per-type file before the child performs its first operation; two threads issuing their '
-        'first inc concurrently after an identity change with the first pre-empted inside the re-binding; then a systematic slice: SetPid immediately followed by ONE operation (set/inc/dec/observe/get/new child/new metric) for every '
+        'first inc concurrently after an identity change with the first pre-empted inside the re-binding; TWO THREADS UPDATING TWO '
+        'DIFFERENT SERIES (of different backing files: counter / each gauge mode / summary / histogram, or of one file) right after '
+        'an identity change, the first paused at its first close of an inherited file / first open of a file of the new identity / '
+        'first value read - all inside the re-binding - while the second runs (race2; also fused into 15% of the random histories; '
+        'compared with the model as the two updates in sequence, the series differ so the order is immaterial); FAULTS: the first '
+        'operation after an identity change (and random operations) performed while the n-th .. open of a store file fails with '
+        'EMFILE / ENOSPC / EACCES, once or for the whole operation, the application carrying on with every series and returning to '
+        'the first identity (direct oracle only: from the first fired fault on an operation may raise, but NO step may change a '
+        'file of another identity, and an update that completes has its cell in the own file of the identity it ran under; 10% of the '
+        'random histories); then a systematic slice: SetPid immediately followed by ONE operation (set/inc/dec/observe/get/new child/new metric) for every '
         'gauge mode and metric type, labelled and unlabelled, warm and cold; identities numeric and NON-numeric (hex ids ending '
         'in b/d, ids with dots, ids that are suffixes of one another); then '
         'operation histories of one worker closure over counters, gauges (all 10 modes), summaries and histograms, labelled '
@@ -32,6 +41,8 @@ TRUSTED = ['float + == of the platform (IEEE binary64)',
            'metrics.py creates the value objects of a metric in the order the harness translation assumes '
            '(counter: _total; summary: _count,_sum; histogram: _sum, buckets; gauge: one) and observe() increments them as '
            'written there; the per-step directory comparison does not depend on that order',
+           'failing opens are injected at MmapedDict.__init__ (write mode) of the child interpreter, thread pauses at '
+           'MmapedDict.close / __init__ / read_value; the model has no faults (fault histories: direct oracle only)',
            'simulated identities (process_identifier reads a box) for the correspondence; real os.fork() (inherited mappings, os.getpid identities) in 10% of the random cases (30% in the thorough tier), direct oracle only']
 ASSUMPTIONS = ['the per-cell fold / conservation theorems (C09_sum_conserved*, C09_continues_from_file, C09_get_reads_own_file) and the '
                'totals of the direct oracle assume that no two live value objects of one closure share a (file prefix, key) '
@@ -195,6 +206,125 @@ def fork_late_slice():
 
 
 
+def flat(op):
+    """the plain operations a (possibly composite) operation performs, in the order a correct implementation serialises
+    them: ['fault', w, skip, count, errno, op] performs op while opening a store file fails; ['race2', w, opA, opB, where]
+    has two threads perform opA and opB, the first paused at its first `where` of the store"""
+    if op[0] == 'fault':
+        return flat(op[5])
+    if op[0] == 'race2':
+        return [op[2], op[3]]
+    return [op]
+
+
+def flat_case(case):
+    return dict(case, ops=[f for op in case['ops'] for f in flat(op)])
+
+
+WHERES = ('close', 'open', 'read_value')
+SIMPLE = ('inc', 'dec', 'set', 'obs')
+
+
+def _series_decls():
+    return [dict(kind='counter', name='c', help='cc'), dict(kind='gauge', name='g', help='gg', mode='all'),
+            dict(kind='gauge', name='gs', help='gg', mode='livesum'), dict(kind='summary', name='s', help='ss'),
+            dict(kind='histogram', name='h', help='hh', buckets=[1.0, 2.5]), dict(kind='counter', name='c2', help='cc'),
+            dict(kind='gauge', name='gr', help='gg', mode='mostrecent')]
+
+
+def race2_slice(rng, thorough):
+    """schedules: after an identity change TWO THREADS update two DIFFERENT series - of different backing files
+    (counter / gauge of each mode / summary / histogram) or of one file; the first thread is paused at a point of the
+    store that lies inside the re-binding (first close of an inherited file, first open of a file of the new identity,
+    first read of a value) and the second is given time to run there.  Labelled and unlabelled, either listed first."""
+    decls = _series_decls()
+    n = 0
+    for ia, da in enumerate(decls):
+        for ib, db in enumerate(decls):
+            if ia == ib:
+                continue
+            for where in WHERES:
+                n += 1
+                if not thorough and n % 3 != (ia + ib) % 3:
+                    continue
+                la, lb = rng.choice([[], ['a']]), rng.choice([[], ['a']])
+                a = dict(da, id=0, labelnames=la)
+                b = dict(db, id=1, labelnames=lb)
+                lva, lvb = (['x'] if la else []), (['y'] if lb else [])
+                p0, p1 = rng.sample(PIDS, 2)
+                order = rng.random() < 0.5         # which of the two was created first (position in the list of live values)
+                ops = [['spawn', 0, p0]] + ([['new', 0, 0], ['new', 0, 1]] if order else [['new', 0, 1], ['new', 0, 0]])
+                ops += [_upd(a, lva, 1.0, 1000.0), _upd(b, lvb, 2.0, 1001.0), ['setpid', 0, p1],
+                        ['race2', 0, _upd(a, lva, 4.0, 1002.0), _upd(b, lvb, 0.5, 1003.0), where], ['collect'],
+                        ['setpid', 0, p0],
+                        ['race2', 0, _upd(b, lvb, 8.0, 1004.0), _upd(a, lva, 0.25, 1005.0), WHERES[(n + 1) % 3]], ['collect']]
+                yield {'metrics': [a, b], 'ops': ops, 'snap': True}
+
+
+def fuse_races(rng, case):
+    """two consecutive plain updates of different series that directly follow an identity change become a race2"""
+    ops = case['ops']
+    out = []
+    i = 0
+    while i < len(ops):
+        if (ops[i][0] == 'setpid' and i + 2 < len(ops) and ops[i + 1][0] in SIMPLE and ops[i + 2][0] in SIMPLE
+                and (ops[i + 1][2], ops[i + 1][3]) != (ops[i + 2][2], ops[i + 2][3])):
+            out += [ops[i], ['race2', 0, ops[i + 1], ops[i + 2], rng.choice(WHERES)]]
+            i += 3
+        else:
+            out.append(ops[i])
+            i += 1
+    return dict(case, ops=out)
+
+
+ERRNOS = ('EMFILE', 'ENOSPC', 'EACCES')
+
+
+def fault_slice(rng):
+    """faults: the first operation after an identity change is performed while opening / creating a store file fails
+    (the skip-th .. open, once or for the whole operation); the application sees the OSError and carries on updating
+    every series under the new identity, then returns to the first identity."""
+    decls = [d for d in _series_decls() if d['name'] in ('c', 'g', 's', 'h')]
+    cat = [dict(d, id=i, labelnames=(['a'] if i % 2 else [])) for i, d in enumerate(decls)]
+    lvs = [(['x'] if d['labelnames'] else []) for d in cat]
+    for skip in (0, 1, 2, 3):
+        for count in (1, 9):
+            for first in range(len(cat)):
+                p0, p1 = rng.sample(PIDS, 2)
+                order = list(range(len(cat)))
+                rng.shuffle(order)
+                ops = [['spawn', 0, p0]] + [['new', 0, i] for i in order]
+                ops += [_upd(cat[i], lvs[i], 1.0 + i, 1000.0 + i) for i in order] + [['setpid', 0, p1]]
+                ops += [['fault', 0, skip, count, rng.choice(ERRNOS), _upd(cat[first], lvs[first], 0.5, 1010.0)]]
+                ops += [_upd(cat[i], lvs[i], 16.0, 1020.0 + i) for i in range(len(cat))] + [['collect'], ['setpid', 0, p0]]
+                ops += [_upd(cat[i], lvs[i], 32.0, 1030.0 + i) for i in range(len(cat))] + [['collect']]
+                yield {'metrics': cat, 'ops': ops, 'snap': True, 'fault': True}
+
+
+def fault_history(rng):
+    """a random history with identity changes in which some operations (mostly the first after a change) are performed
+    under a failing open"""
+    cat, ops = base_history(rng, rng.randrange(5, 30))
+    out = [ops[0]]
+    pending = False
+    for op in ops[1:]:
+        if rng.random() < 0.2:
+            out.append(['setpid', 0, rng.choice(PIDS[:6])])
+            pending = True
+        out.append(op)
+    case = finish(cat, out)
+    res = []
+    pending = False
+    for op in case['ops']:
+        if op[0] == 'setpid':
+            pending = True
+        elif op[0] not in ('spawn', 'collect') and rng.random() < (0.5 if pending else 0.05):
+            op = ['fault', 0, rng.choice([0, 0, 1, 1, 2, 3, 5]), rng.choice([1, 1, 2, 9]), rng.choice(ERRNOS), op]
+            pending = False
+        res.append(op)
+    return dict(case, ops=res, fault=True)
+
+
 # ---------- two live value objects for ONE series ----------
 def _upd(d, lv, v, t, via=None):
     """one update of metric d: through the metric (labels(*lv)) or through the kept handle `via`"""
@@ -332,6 +462,10 @@ def cases(ctx):
         yield c
     for c in race_slice():
         yield c
+    for c in race2_slice(rng, ctx.thorough):
+        yield c
+    for c in fault_slice(rng):
+        yield c
     for c in first_op_slice(rng):
         yield c
     # every position of short histories, with a change to a new identity and a change back to the first one
@@ -351,6 +485,9 @@ def cases(ctx):
         if rng.random() < 0.2:
             yield dup_history(rng)
             continue
+        if rng.random() < 0.1:
+            yield fault_history(rng)
+            continue
         cat, ops = base_history(rng, rng.randrange(5, 40), wild=rng.random() < 0.2)
         out = [ops[0]]
         for op in ops[1:]:
@@ -362,7 +499,8 @@ def cases(ctx):
             elif r < 0.23:
                 out.append(['collect'])
             out.append(op)
-        yield finish(cat, out)
+        c = finish(cat, out)
+        yield fuse_races(rng, c) if rng.random() < 0.15 else c
 
 
 def fork_case(rng):
@@ -447,10 +585,11 @@ def walk(case):
     nvalues = [0]
     init = None
     out = []
-    for op in case['ops']:
+    for top in case['ops']:
+      acts = []
+      for op in flat(top):
         op = C8.norm_op(op)
         kind = op[0]
-        acts = []
 
         def ensure(d, lv):
             k = (d['id'], tuple(lv))
@@ -520,7 +659,7 @@ def walk(case):
                     held[op[4]] = (d, roles)
                 elif kind != 'child':
                     update(d, roles, kind, op[4:])
-        out.append(acts)
+      out.append(acts)
     return init, out
 
 
@@ -552,6 +691,8 @@ def base_of(t, m, p):
 def model(m, case):
     if case.get('fork'):
         return 'fork-case'
+    if case.get('fault'):
+        return 'fault-case'         # the model has no failing opens: direct oracle only
     init, hops, counts = translate(case)
     rep = m.call('c09_run', init, hops)
     out = []
@@ -582,7 +723,7 @@ def canon_snap(snap):
 
 
 def same(iobs, mobs):
-    if mobs == 'fork-case':
+    if mobs in ('fork-case', 'fault-case'):
         return True
     if isinstance(iobs, dict) or len(iobs) != len(mobs):
         return False
@@ -658,8 +799,12 @@ def own_files_only(i, op, pid, prev, snap):
     return None
 
 
-def direct_dup(case, obs):
-    """Histories in which several live value objects describe one series (kept handles + remove/clear/re-declaration).
+def direct_dup(case, obs, faults=False):
+    """(faults=True: histories with failing opens.  From the first fault that fired on, an operation may raise - the
+    property does not say that a worker recovers from a failed re-binding - and after an operation that raised no cache
+    is taken to be current until the next identity change; everything else is demanded as below, in particular a step
+    under identity p NEVER changes a file of another identity, whether it raises or not.)
+    Histories in which several live value objects describe one series (kept handles + remove/clear/re-declaration).
     What the property states for them, per file: (1) a step under identity p changes no file of another identity;
     (2) every value object created, and every update issued, under identity p has its cell in p's OWN file after the
     step - whichever object it went through; (3) set(v) stores v (and the set-time for mostrecent gauges) there;
@@ -676,8 +821,10 @@ def direct_dup(case, obs):
     prev = {}
     params = {}         # value index -> (typ, mode, key)
     synced = {}         # value index -> its cache is known to equal the cell of the current identity's file
+    fired = False
     for i, (op, o, acts) in enumerate(zip(case['ops'], obs, steps)):
-        if 'exc' in o:
+        fired = fired or bool(o.get('fault_fired'))
+        if 'exc' in o and not (faults and fired):
             return 'op %d %r raised %s: %s' % (i, op, o['exc'], o.get('msg'))
         kind = op[0]
         if kind == 'spawn':
@@ -687,7 +834,18 @@ def direct_dup(case, obs):
         snap = o['snap']
         r = own_files_only(i, op, pid, prev, snap)
         if r:
-            return r
+            return r + (' (after an open of a store file had failed)' if fired else '')
+        if 'exc' in o:
+            # how far the operation got is not known: no cache is taken to be current any more
+            prev = snap
+            for a in acts:
+                if a[0] == 'new':
+                    params[a[1]] = a[2]
+            if any(a[0] in ('new', 'inc', 'set', 'get') for a in acts):
+                cpid = pid
+            for j in params:
+                synced[j] = False
+            continue
         before = {base: {L.decode_key(k): (v, ts) for k, v, ts in entries} for base, entries in prev.items()}
         after = {base: {L.decode_key(k): (v, ts) for k, v, ts in entries} for base, entries in snap.items()}
         prev = snap
@@ -705,6 +863,8 @@ def direct_dup(case, obs):
             typ, mode, key = params[j]
             base = base_of(typ, mode if typ == 'gauge' else '', str(pid))
             cell = after.get(base, {}).get(key)
+            if cell is None and faults and a[0] == 'get' and not synced[j]:
+                continue                    # a read through an object a failed re-binding did not reach: not an update
             if cell is None:
                 return ('op %d %r ran under identity %s: the cell of %r is not in %s, the file of that identity (files now: %r)'
                         % (i, op, pid, key[1:3], base, sorted(snap)))
@@ -741,6 +901,8 @@ def direct(case, obs):
         return direct_fork(case, obs)
     if case.get('dup'):
         return direct_dup(case, obs)
+    if case.get('fault'):
+        return direct_dup(case, obs, faults=True)
     cat = {d['id']: d for d in case['metrics']}
     pid = None
     prev = {}
@@ -759,7 +921,8 @@ def direct(case, obs):
             return r
         prev = snap
         # 2. bookkeeping of what was issued (a race is two increments, set_to_current_time a set)
-        subops = ([['inc'] + op[1:4] + [op[4]], ['inc'] + op[1:4] + [op[5]]] if kind == 'race' else [C8.norm_op(op)])
+        subops = ([['inc'] + op[1:4] + [op[4]], ['inc'] + op[1:4] + [op[5]]] if kind == 'race' else
+                  [C8.norm_op(x) for x in flat(op)])
         for sub in subops:
             book(sub, pid, cat, totals, per_pid)
         # 3. get() continues from what this identity's file holds = what this identity issued so far
@@ -843,7 +1006,7 @@ def nontrivial(case, obs):
     changed = False
     pid = None
     touched = False
-    for op in case['ops']:
+    for op in flat_case(case)['ops']:
         if op[0] in ('setpid', 'restart'):
             if touched and op[2] != pid:
                 changed = True
@@ -867,7 +1030,14 @@ def classify(case, obs):
     seen = set()
     made = set()
     updated = set()
-    for i, op in enumerate(ops):
+    for top in ops:
+        if top[0] == 'race2':
+            ks.append('op:race2')
+            ks.append('race2:%s_files' % ('different' if file_of(case, top[2]) != file_of(case, top[3]) else 'same'))
+        elif top[0] == 'fault':
+            ks.append('op:fault')
+            ks.append('fault:skip=%d' % min(3, top[2]))
+    for i, op in enumerate(flat_case(case)['ops']):
         ks.append('op:' + op[0])
         if op[0] in ('spawn', 'restart', 'setpid'):
             if op[0] == 'setpid':
@@ -893,7 +1063,16 @@ def classify(case, obs):
         ks.append('harness_error')
     else:
         ks.append('files_at_end=%d' % min(8, len(obs[-1].get('snap', {}))))
+        seen_fault = False
         for o in obs:
+            if 'paused2' in o:
+                ks.append('race2:first_thread_paused_at_%s=%s' % (o['where'], o['paused2']))
+                ks.append('race2:second_thread_ran_meanwhile=%s' % o['second_thread_ran_meanwhile'])
+            if 'fault_fired' in o:
+                ks.append('fault:fired=%d' % min(3, o['fault_fired']))
+                seen_fault = seen_fault or bool(o['fault_fired'])
+            elif seen_fault:
+                ks.append('after_fault:%s' % ('raised' if 'exc' in o else 'completed'))
             if 'paused' in o:
                 ks.append('race:first_thread_paused_in_rebind=%s' % o['paused'])
                 ks.append('race:second_thread_ran_meanwhile=%s' % o['second_thread_ran_during_rebind'])
@@ -902,6 +1081,11 @@ def classify(case, obs):
     if case.get('dup'):
         ks.extend(dup_classes(case))
     return sorted(set(ks))
+
+
+def file_of(case, op):
+    d = [d for d in case['metrics'] if d['id'] == op[2]][0]
+    return d['kind'] + '_' + d.get('mode', '')
 
 
 def dup_classes(case):
@@ -957,7 +1141,7 @@ def shrinks(case):
             continue
         for i in range(1, n, size):
             c = dict(case, ops=ops[:i] + ops[i + size:])
-            if len(c['ops']) > 1 and (valid_dup(c) if case.get('dup') else C8._valid(c)):
+            if len(c['ops']) > 1 and (valid_dup(c) if case.get('dup') else C8._valid(flat_case(c))):
                 yield c
 
 
